@@ -214,7 +214,10 @@ fn generated(rep: &mut Report, evals: &mut u64) {
             ),
         }
     }
-    for &t in TOP.iter() {
+    for (i, &t) in TOP.iter().enumerate() {
+        if crate::gen::small() && i % 17 != 3 && i != 169 {
+            continue;
+        }
         for d in [0u64, 1, 2] {
             at::<VNormal>(t as u64 + d - 1, rep, evals);
             at::<VShort>(t as u64 + d - 1, rep, evals);
